@@ -172,6 +172,49 @@ CLAIMS = {
              "5 s idle wake-up.",
         technique="Lean 4 list induction + decide over the reflected DLC table + first-fit loop induction; lock-step correspondence; reference-decoder oracle",
         design="§8 C11"),
+    'C17': dict(
+        text="Proof (Lean 4) about Model/Dm14.lean (MemoryAccess facade, Dm14Query, DM14Server and the live-iterated ECU subscriber list, "
+             "message level): value<->byte conversion is exact for every object size > 0, every count and all in-range values, unsigned and "
+             "two's-complement reading (list induction); whole-transaction theorems between ANY clean client and ANY clean server without "
+             "seed/key, for all parameters — read of 1..7 bytes, read of 8..255 bytes (multi-packet DM16 + end-of-message acknowledgement), "
+             "write of 1..255 bytes: the application is consulted once with exactly the client's command / 32-bit address / pointer type / "
+             "count / requester, the client's call returns exactly the served bytes (raw) or their values, respond() returns exactly the "
+             "little-endian bytes of the written values, and BOTH nodes are clean afterwards (three state machines idle, queues empty, only "
+             "the facade subscribed, server bound to nobody); by induction any sequence of such transactions (c17_back_to_back); the "
+             "configuration of a node is invariant under every operation.  Partial: with seed/key the two handshake steps are proved in C18 "
+             "but not composed into a whole-transaction theorem; the composition with the transport (frame level) is by the oracle.",
+        note="Proved for the code as repaired by D13, D14, D15, D16, D21 (each theorem is false on the unrepaired code: 8-byte reads, count > 1, "
+             "back-to-back). Tie: lock-step correspondence of the model with the REAL three classes on a real ECU/CA (blocking calls run in "
+             "cooperative helper threads; recorded multi-node scripts incl. hostile PDUs, resets, timeouts, address 0); oracle: real objects "
+             "over two real J1939-21 stacks in virtual time.",
+        technique="Lean 4 symbolic execution lemmas per protocol step composed into transaction theorems + list inductions; lock-step correspondence; e2e oracle",
+        design="§8 C17"),
+    'C18': dict(
+        text="Proof (Lean 4), same model: KEY GATE — with a seed/key algorithm the facade calls the proceed callback / notification only in "
+             "the step in which the key DM14 arrives and only if key = f(seed sent); the receive path never sends DM16 (data leaves only "
+             "through respond()); respond() outside WAIT_RESPONSE sends nothing and changes nothing; ERRORS — for EVERY 24-bit code and "
+             "EDCP 6/7 the 'operation failed' DM15 queues exactly that code at the waiting client and the blocked read/write raises it; "
+             "wrong key is answered 0x1003, refusal 0x100; TIMEOUT — a caller that heard nothing raises 'No response'; RECOVERY — after any "
+             "end of a call (result, device error, timeout in any phase) facade and query are idle, no handler is left, and the next read is "
+             "accepted; after a refusal / wrong key the server is idle, bound to nobody, not busy and (D26) listening again.  Partial: the "
+             "key-gate is a step theorem plus the respond() guard, not an invariant over all reachable states; exception texts are tied by "
+             "correspondence (known-code flag) and the oracle.",
+        note="Proved for the code as repaired by D16, D17, D26, D27. Same tie as C17. Oracle: histories of <= 6 operations mixing failures and "
+             "successes, all error kinds, absent server.",
+        technique="Lean 4 decision-logic / codec theorems over hand model with regenerated DM15 field extraction; lock-step correspondence; failure-history oracle",
+        design="§8 C18"),
+    'C19': dict(
+        text="Proof (Lean 4), same model: while the server side of a node is bound to requester a (any state satisfying InTx: bound, not "
+             "idle, not busy, 8-byte opening DM14) a DM14 from another source address — or from a with another pointer — handed to the node "
+             "in ANY facade state and with ANY handlers registered leaves the node EXACTLY equal, runs neither callback, raises nothing and "
+             "emits only DM15 'operation failed' PDUs addressed to the intruder (induction over the live subscriber loop); hence any number "
+             "of intruding requests leave the running transaction's future unchanged (c19_intruders_noop); with nothing subscribed the "
+             "request is not looked at.  Partial: that every intermediate state of a transaction satisfies InTx is shown by example for the "
+             "opening states and exercised at every bus frame by the oracle, not proved as an invariant.",
+        note="Holds on the unchanged tree (no fix needed). Same tie as C17. Oracle: intruder after every bus frame of every shape, incl. requester "
+             "address 0.",
+        technique="Lean 4 no-op theorem by induction over the live-iterated subscriber list; lock-step correspondence; injection oracle",
+        design="§8 C19"),
 }
 
 NOT_YET = {}
